@@ -4,6 +4,9 @@ From NV Require Import Base.Result Base.Bytes Base.PyPrims Model.Addr Proofs.Add
 Import ListNotations.
 Open Scope Z_scope.
 
+Lemma sap_set_dmpdu c a e : sd_dmpdu (sap_set c a e) = sd_dmpdu c.
+Proof. unfold sap_set. destruct (in_range a); reflexivity. Qed.
+
 (* ---------------------------------------------------------------- initial state *)
 Lemma nth_repeat_none n k : nth k (repeat SapNone n) SapNone = SapNone.
 Proof. revert k; induction n; intros [|k]; cbn; auto. Qed.
@@ -38,6 +41,9 @@ Proof.
     intro H; inversion H; subst. left. apply name_eqb_eq in E. auto.
   - intros n1 n2 a Ha. cbn [lookup c_snl init_ctl]. destruct (name_eqb name_sdp n1); [|discriminate].
     intro H; inversion H; lia.
+  - intros a l sl p. rewrite sap_get_init. destruct (a =? 0); [intro H; inversion H; subst; intros []|].
+    destruct (a =? 1); discriminate.
+  - intros p [].
 Qed.
 
 (* ---------------------------------------------------------------- a socket changes, its address does not *)
@@ -48,17 +54,19 @@ Record evolves (s s' : sock) : Prop := mkEv {
   ev_shut : s_state s = StShutdown -> s_state s' = StShutdown;
   ev_nolisten : nolisten (s_state s) -> nolisten (s_state s');
   ev_sq : s_type s = TLdl -> forall p, In p (s_sendq s') -> In p (s_sendq s) \/ ui_src (s_addr s') p;
-  ev_rq : s_type s = TLdl -> forall p, In p (s_recvq s') -> In p (s_recvq s) \/ ui_dst (s_addr s') p }.
+  ev_rq : s_type s = TLdl -> forall p, In p (s_recvq s') -> In p (s_recvq s) \/ ui_dst (s_addr s') p;
+  ev_dq : s_type s = TDlc -> forall p, In p (s_sendq s') -> In p (s_sendq s) \/ is_ui p = false }.
 
 Lemma evolves_refl s : evolves s s.
 Proof. constructor; auto. Qed.
 Lemma evolves_trans s1 s2 s3 : evolves s1 s2 -> evolves s2 s3 -> evolves s1 s3.
 Proof.
-  intros [A1 T1 B1 S1 N1 Q1 R1] [A2 T2 B2 S2 N2 Q2 R2]. constructor; try congruence; auto.
+  intros [A1 T1 B1 S1 N1 Q1 R1 D1] [A2 T2 B2 S2 N2 Q2 R2 D2]. constructor; try congruence; auto.
   - intros T p H. destruct (Q2 (eq_trans T1 T) p H) as [H2|H2]; auto.
     destruct (Q1 T p H2) as [H1|H1]; auto. right. rewrite A2. auto.
   - intros T p H. destruct (R2 (eq_trans T1 T) p H) as [H2|H2]; auto.
     destruct (R1 T p H2) as [H1|H1]; auto. right. rewrite A2. auto.
+  - intros T p H. destruct (D2 (eq_trans T1 T) p H) as [H2|H2]; auto.
 Qed.
 
 Lemma get_put c i s' s j : get_sock c i = Some s ->
@@ -69,9 +77,9 @@ Proof. intro H. destruct (Nat.eqb i j) eqn:E.
 
 Lemma wf_put_evolve c i s s' : wf c -> get_sock c i = Some s -> evolves s s' -> wf (put_sock c i s').
 Proof.
-  intros W G [Ea Et Eb Es En Eq Er].
+  intros W G [Ea Et Eb Es En Eq Er Ed].
   assert (GP := get_put c i s' s).
-  destruct W as [Wlen W0 W1 Wsd Wne Wla Wnd Wol War Whg Wk Wsdp Wval Winj Wbs Wsb Wun Wsq Wrq].
+  destruct W as [Wlen W0 W1 Wsd Wne Wla Wnd Wol War Whg Wk Wsdp Wval Winj Wbs Wsb Wun Wsq Wrq Wdq Wsl Wdm].
   constructor; auto.
   - intros a j L. destruct (Wla a j L) as (sj & Gj & Aj). rewrite GP by auto.
     destruct (Nat.eqb i j) eqn:E; [|eauto]. apply Nat.eqb_eq in E. subst j.
@@ -98,6 +106,8 @@ Proof.
     inversion Gj; subst sj. rewrite Et in Tj. destruct (Eq Tj p Hp) as [H|H]; auto. rewrite Ea. eapply Wsq; eauto.
   - intros j sj p Gj Tj Hp. rewrite GP in Gj by auto. destruct (Nat.eqb i j) eqn:E; [|eapply Wrq; eauto].
     inversion Gj; subst sj. rewrite Et in Tj. destruct (Er Tj p Hp) as [H|H]; auto. rewrite Ea. eapply Wrq; eauto.
+  - intros j sj p Gj Tj Hp. rewrite GP in Gj by auto. destruct (Nat.eqb i j) eqn:E; [|eapply Wdq; eauto].
+    inversion Gj; subst sj. rewrite Et in Tj. destruct (Ed Tj p Hp) as [H|H]; auto. eapply Wdq; eauto.
 Qed.
 
 (* ---------------------------------------------------------------- a new, unbound socket *)
@@ -126,7 +136,7 @@ Proof.
   intros W Ax Bx Qx Rx. set (c' := set_socks c (c_socks c ++ [x])).
   assert (GA : forall j, get_sock c' j = if Nat.eqb j (length (c_socks c)) then Some x else get_sock c j)
     by (intro; apply get_sock_app).
-  destruct W as [Wlen W0 W1 Wsd Wne Wla Wnd Wol War Whg Wk Wsdp Wval Winj Wbs Wsb Wun Wsq Wrq].
+  destruct W as [Wlen W0 W1 Wsd Wne Wla Wnd Wol War Whg Wk Wsdp Wval Winj Wbs Wsb Wun Wsq Wrq Wdq Wsl Wdm].
   assert (OLD : forall a j, listed c a j -> get_sock c' j = get_sock c j).
   { intros a j L. destruct (Wla a j L) as (sj & Gj & _). apply get_sock_lt in Gj. rewrite GA.
     replace (Nat.eqb j (length (c_socks c))) with false; auto. symmetry. apply Nat.eqb_neq. lia. }
@@ -146,12 +156,15 @@ Proof.
     inversion Gj; subst. rewrite Qx in Hp. destruct Hp.
   - intros j sj p Gj Tj Hp. rewrite GA in Gj. destruct (Nat.eqb j (length (c_socks c))); [|eapply Wrq; eauto].
     inversion Gj; subst. rewrite Rx in Hp. destruct Hp.
+  - intros j sj p Gj Tj Hp. rewrite GA in Gj. destruct (Nat.eqb j (length (c_socks c))); [|eapply Wdq; eauto].
+    inversion Gj; subst. rewrite Qx in Hp. destruct Hp.
 Qed.
 
 (* ---------------------------------------------------------------- send_list of a SAP *)
-Lemma wf_sendl c a l sl sl' : wf c -> sap_get c a = Sap l sl -> wf (sap_set c a (Sap l sl')).
+Lemma wf_sendl c a l sl sl' : wf c -> sap_get c a = Sap l sl -> (forall p, In p sl' -> is_ui p = false) ->
+  wf (sap_set c a (Sap l sl')).
 Proof.
-  intros W G.
+  intros W G NU.
   assert (Ra : 0 <= a < 64).
   { destruct (Z_lt_dec a 0); [rewrite sap_get_oob in G by lia; discriminate|].
     destruct (Z_lt_dec a 64); [lia|]. rewrite sap_get_oob in G by lia; discriminate. }
@@ -163,7 +176,7 @@ Proof.
   { intro b. unfold is_free. destruct (Z.eq_dec a b).
     - subst b. rewrite sap_get_set_same by (auto; apply W). rewrite G. reflexivity.
     - rewrite sap_get_set_other by auto. reflexivity. }
-  destruct W as [Wlen W0 W1 Wsd Wne Wla Wnd Wol War Whg Wk Wsdp Wval Winj Wbs Wsb Wun Wsq Wrq].
+  destruct W as [Wlen W0 W1 Wsd Wne Wla Wnd Wol War Whg Wk Wsdp Wval Winj Wbs Wsb Wun Wsq Wrq Wdq Wsl Wdm].
   constructor; unfold listed in *; try setoid_rewrite SO; try setoid_rewrite get_sock_sap_set;
     try setoid_rewrite FR; try rewrite sap_set_snl; auto.
   - rewrite sap_set_len. auto.
@@ -176,6 +189,10 @@ Proof.
   - intros b l0 sl0 Hb. destruct (Z.eq_dec a b).
     + subst b. rewrite sap_get_set_same by auto. intro E; inversion E; subst. eapply Wne; eauto.
     + rewrite sap_get_set_other by auto. eauto.
+  - intros b l0 sl0 p. destruct (Z.eq_dec a b).
+    + subst b. rewrite sap_get_set_same by auto. intro E; inversion E; subst. auto.
+    + rewrite sap_get_set_other by auto. eauto.
+  - unfold sap_set. destruct (in_range a); auto.
 Qed.
 
 (* ---------------------------------------------------------------- bind: a fresh SAP with one socket *)
@@ -242,7 +259,7 @@ Proof.
       intro; subst x. congruence. }
   assert (LKold : forall m x, lookup (c_snl c) m = Some x -> lookup snl' m = Some x).
   { intros m x L. unfold snl'. destruct on; auto. apply lookup_app_some; auto. }
-  destruct W as [Wlen W0 W1 Wsd Wne Wla Wnd Wol War Whg Wk Wsdp Wval Winj Wbs Wsb Wun Wsq Wrq].
+  destruct W as [Wlen W0 W1 Wsd Wne Wla Wnd Wol War Whg Wk Wsdp Wval Winj Wbs Wsb Wun Wsq Wrq Wdq Wsl Wdm].
   constructor.
   - unfold c', place_named, place. cbn [c_sap set_snl]. rewrite sap_set_len. rewrite put_sock_sap. auto.
   - rewrite SG. replace (a =? 0) with false by lia. auto.
@@ -297,6 +314,10 @@ Proof.
     inversion Gj; subst sj. cbn in Tj, Hp. destruct (Wsq i s p G Tj Hp) as (d & data & a0 & _ & A0). congruence.
   - intros j sj p Gj Tj Hp. rewrite GS in Gj. destruct (Nat.eqb i j) eqn:E; [|eapply Wrq; eauto].
     inversion Gj; subst sj. cbn in Tj, Hp. destruct (Wrq i s p G Tj Hp) as (d & sa & data & _ & A0). congruence.
+  - intros j sj p Gj Tj Hp. rewrite GS in Gj. destruct (Nat.eqb i j) eqn:E; [|eapply Wdq; eauto].
+    inversion Gj; subst sj. cbn in Tj, Hp. eapply Wdq; eauto.
+  - intros b l sl p. rewrite SG. destruct (a =? b); [intro E; inversion E; subst; intros [] | eauto].
+  - unfold c', place_named, place. cbn [sd_dmpdu set_snl]. rewrite sap_set_dmpdu. exact Wdm.
 Qed.
 
 Lemma place_named_none c i s a : s_bname s = None -> place_named c i s a None = place c i s a.
@@ -349,7 +370,7 @@ Proof.
       - intros [H N]. inversion H; subst. lia.
       - intro H; inversion H; subst. split; auto. lia.
       - tauto. }
-    destruct W as [Wlen W0 W1 Wsd Wne Wla Wnd Wol War Whg Wk Wsdp Wval Winj Wbs Wsb Wun Wsq Wrq].
+    destruct W as [Wlen W0 W1 Wsd Wne Wla Wnd Wol War Whg Wk Wsdp Wval Winj Wbs Wsb Wun Wsq Wrq Wdq Wsl Wdm].
     constructor.
     + unfold c'. cbn [c_sap set_snl]. rewrite sap_set_len. auto.
     + rewrite SG'. replace (a =? 0) with false by lia. auto.
@@ -373,6 +394,9 @@ Proof.
     + intros j sj Gj. rewrite GS in Gj. eauto.
     + intros j sj p Gj. rewrite GS in Gj. eauto.
     + intros j sj p Gj. rewrite GS in Gj. eauto.
+    + intros j sj p Gj. rewrite GS in Gj. eauto.
+    + intros b l sl0 p. rewrite SG'. destruct (a =? b); [discriminate | eauto].
+    + unfold c'. cbn [sd_dmpdu set_snl]. rewrite sap_set_dmpdu. exact Wdm.
   - (* other sockets remain *)
     rewrite <- RM. set (l' := remove_id l i).
     assert (NE : l' <> []) by (unfold l'; rewrite RM; discriminate).
@@ -387,7 +411,7 @@ Proof.
       replace b with a by lia. rewrite SG. cbn. apply remove_id_in. }
     assert (FR : forall b, is_free c' b = is_free c b).
     { intro b. unfold is_free. rewrite SG'. destruct (a =? b) eqn:E; auto. replace b with a by lia. rewrite SG. reflexivity. }
-    destruct W as [Wlen W0 W1 Wsd Wne Wla Wnd Wol War Whg Wk Wsdp Wval Winj Wbs Wsb Wun Wsq Wrq].
+    destruct W as [Wlen W0 W1 Wsd Wne Wla Wnd Wol War Whg Wk Wsdp Wval Winj Wbs Wsb Wun Wsq Wrq Wdq Wsl Wdm].
     constructor; try (unfold c'; rewrite sap_set_snl); auto.
     + unfold c'. rewrite sap_set_len. auto.
     + rewrite SG'. replace (a =? 0) with false by lia. auto.
@@ -409,18 +433,23 @@ Proof.
     + intros j sj Gj. rewrite GS in Gj. eauto.
     + intros j sj p Gj. rewrite GS in Gj. eauto.
     + intros j sj p Gj. rewrite GS in Gj. eauto.
+    + intros j sj p Gj. rewrite GS in Gj. eauto.
+    + intros b l0 sl0 p. rewrite SG'. destruct (a =? b) eqn:E; [|eauto]. intro H; inversion H; subst.
+      eapply (Wsl a); eauto.
+    + unfold c'. rewrite sap_set_dmpdu. exact Wdm.
 Qed.
 
 (* ---------------------------------------------------------------- accept: a new socket joins an existing SAP *)
 Lemma wf_accept c a i si client :
   wf c -> listed c a i -> get_sock c i = Some si -> s_type si = TDlc ->
   s_addr client = Some a -> s_type client = TDlc -> s_bname client = None -> nolisten (s_state client) ->
+  s_sendq client = [] ->
   exists c3, sap_insert (set_socks c (c_socks c ++ [client])) a (length (c_socks c)) TDlc = Some c3 /\ wf c3 /\
              listed c3 a (length (c_socks c)) /\ get_sock c3 (length (c_socks c)) = Some client /\
              (forall k, k <> length (c_socks c) -> get_sock c3 k = get_sock c k) /\
              (forall b, b <> a -> sap_get c3 b = sap_get c b) /\ c_snl c3 = c_snl c.
 Proof.
-  intros W Li Gi Ti Ac Tc Bc Nc.
+  intros W Li Gi Ti Ac Tc Bc Nc Qc.
   set (j := length (c_socks c)). set (c2 := set_socks c (c_socks c ++ [client])).
   assert (G2 : forall k, get_sock c2 k = if Nat.eqb k j then Some client else get_sock c k) by (intro; apply get_sock_app).
   destruct (sap_get c a) as [| |l sl] eqn:SG; try (unfold listed in Li; rewrite SG in Li; destruct Li).
@@ -454,7 +483,7 @@ Proof.
   split; [|split; [apply LI; auto | split; [rewrite GS, Nat.eqb_refl; auto | split; [|split; auto]]]].
   2:{ intros k Hk. rewrite GS. replace (Nat.eqb k j) with false; auto. symmetry. apply Nat.eqb_neq. auto. }
   2:{ intros b Hb. rewrite SG'. replace (a =? b) with false by lia. auto. }
-  destruct W as [Wlen W0 W1 Wsd Wne Wla Wnd Wol War Whg Wk Wsdp Wval Winj Wbs Wsb Wun Wsq Wrq].
+  destruct W as [Wlen W0 W1 Wsd Wne Wla Wnd Wol War Whg Wk Wsdp Wval Winj Wbs Wsb Wun Wsq Wrq Wdq Wsl Wdm].
   constructor; try rewrite SN; auto.
   - unfold c3. rewrite sap_set_len. auto.
   - rewrite SG'. replace (a =? 0) with false by lia. auto.
@@ -493,4 +522,8 @@ Proof.
   - intros k sk Gk Ak. rewrite GS in Gk. destruct (Nat.eqb k j); [|eauto]. inversion Gk; subst. congruence.
   - intros k sk p Gk Tk Hp. rewrite GS in Gk. destruct (Nat.eqb k j); [|eapply Wsq; eauto]. inversion Gk; subst. congruence.
   - intros k sk p Gk Tk Hp. rewrite GS in Gk. destruct (Nat.eqb k j); [|eapply Wrq; eauto]. inversion Gk; subst. congruence.
+  - intros k sk p Gk Tk Hp. rewrite GS in Gk. destruct (Nat.eqb k j); [|eapply Wdq; eauto]. inversion Gk; subst.
+    rewrite Qc in Hp. destruct Hp.
+  - intros b l0 sl0 p. rewrite SG'. destruct (a =? b) eqn:E; [|eauto]. intro H; inversion H; subst. eapply (Wsl a); eauto.
+  - unfold c3. rewrite sap_set_dmpdu. exact Wdm.
 Qed.
